@@ -1,16 +1,28 @@
 #!/bin/bash
-# usage: verify_mutant.sh <dir with patch.diff demo.rs meta.json> <scratch worktree>
+# usage: verify_mutant.sh <dir with patch.diff demo.rs meta.json> <scratch worktree> [plain|feat|profile]
 # Confirms: patch applies; existing suite passes with it; demo fails with it; demo passes without it.
+#  feat    : demo (and the crate's feature-gated tests) run with --features "rayon serde"
+#  profile : the demo must give different outcomes in debug and release with the patch, the same without
 set -u
-D="$1"; WT="$2"
+D="$1"; WT="$2"; MODE="${3:-plain}"
 export CARGO_NET_OFFLINE=true
 cd "$WT" || exit 3
 git checkout -q -- . ; rm -f tests/demo.rs
 git apply "$D/patch.diff" || { echo "RESULT $D apply=FAIL"; exit 1; }
 suite=$(cargo nextest run --workspace --no-fail-fast --offline 2>&1 | grep -E "^\s+Summary" | tail -1)
+FEAT=""
+extra=""
+if [ "$MODE" = feat ]; then
+  FEAT='--features rayon,serde'
+  extra=$(cargo test --offline $FEAT --test rayon --test serde 2>&1 | grep -E "^test result" | tr '\n' ' ')
+fi
 cp "$D/demo.rs" tests/demo.rs
-timeout 600 cargo test --offline --test demo >/tmp/mv_demo_mut.log 2>&1; rc_mut=$?
-git checkout -q -- . 
-timeout 600 cargo test --offline --test demo >/tmp/mv_demo_clean.log 2>&1; rc_clean=$?
+timeout 900 cargo test --offline $FEAT --test demo >/tmp/mv_demo_mut.log 2>&1; rc_mut=$?
+rc_mut_rel=-
+if [ "$MODE" = profile ]; then timeout 900 cargo test --offline --release --test demo >/tmp/mv_demo_mut_rel.log 2>&1; rc_mut_rel=$?; fi
+git checkout -q -- .
+timeout 900 cargo test --offline $FEAT --test demo >/tmp/mv_demo_clean.log 2>&1; rc_clean=$?
+rc_clean_rel=-
+if [ "$MODE" = profile ]; then timeout 900 cargo test --offline --release --test demo >/tmp/mv_demo_clean_rel.log 2>&1; rc_clean_rel=$?; fi
 rm -f tests/demo.rs
-echo "RESULT $D suite=[$suite] demo_with_patch_rc=$rc_mut demo_clean_rc=$rc_clean"
+echo "RESULT $D suite=[$suite] feature_tests=[$extra] demo_with_patch_rc=$rc_mut demo_with_patch_release_rc=$rc_mut_rel demo_clean_rc=$rc_clean demo_clean_release_rc=$rc_clean_rel"
